@@ -17,6 +17,14 @@ CHECK = {
     "units": [
         {"name": "core", "pkg": "./internal/verifh/core", "run": "^TestVerifC16$", "rewrite": SYNC_RW,
          "shards": {"quick": 16, "thorough": 16}, "timeout": {"quick": 900, "thorough": 3400}},
+           {'name': 'race',
+            'pkg': './internal/verifh/core',
+            'run': '^TestVerifC16$',
+            'race': True,
+            'tiers': ['thorough'],
+            'env': {'VERIF_FREE': '1', 'VERIF_PART': 'S', 'GORACE': 'halt_on_error=0 exitcode=0 log_path={scratch}/race'},
+            'shards': {'quick': 8, 'thorough': 8},
+            'timeout': {'quick': 900, 'thorough': 2400}}
     ],
 }
 
